@@ -49,7 +49,7 @@ func verifSeen(err, derr error, invoked int64) (int64, int64) {
 		return breaker.VSNil, 0
 	case invoked == 0 && err == breaker.ErrServiceUnavailable:
 		return breaker.VSBreakerUnavailable, 0
-	case invoked == 0 && err == context.Canceled:
+	case invoked == 0 && breaker.VerifIsCtxErr(err):
 		return breaker.VSCtxErr, 0
 	case derr != nil && err == derr:
 		return breaker.VSSame, 0
@@ -76,12 +76,11 @@ func TestVerifC01W(t *testing.T) {
 	}
 	defer w.Close()
 	timex.SetFakeNow(time.Duration(1e15))
-	cancelled, cancel := context.WithCancel(context.Background())
-	cancel()
 	for _, c := range cases {
 		out := breaker.VerifWOut{ID: c.ID}
 		for i, k := range c.Calls {
-			rej, ctxdone, class, code := k[1] == 1, k[2] == 1, k[3], k[4]
+			rej, class, code := k[1] == 1, k[3], k[4]
+			ctx, atReturn := breaker.VerifCtx(k[2])
 			method := fmt.Sprintf("/verif.c01w/%d/%d", c.ID, i)
 			p, err := breaker.VerifAttach(breaker.GetBreaker(method))
 			if err != nil {
@@ -96,14 +95,11 @@ func TestVerifC01W(t *testing.T) {
 			invoker := func(ctx context.Context, method string, req, reply any, cc *grpc.ClientConn,
 				opts ...grpc.CallOption) error {
 				invoked++
+				atReturn() // modes 2, 3: the context is done when the invoker returns / panics
 				if class == breaker.VDPanic {
 					panic(pv)
 				}
 				return derr
-			}
-			ctx := context.Background()
-			if ctxdone {
-				ctx = cancelled
 			}
 			var sk, sc int64
 			func() {
